@@ -19,6 +19,9 @@ def sh(cmd, **kw):
         cmd = "flock /tmp/mut/shared/test.lock " + cmd
     return subprocess.run(cmd, shell=True, capture_output=True, text=True, errors="replace", env=env, **kw)
 sh(f"git -C /repo archive HEAD | tar -x -C {W} --one-top-level=repo")
+# archived files carry the commit's mtime: make them newer than anything a previous scratch copy
+# at the same path left in the shared target directory (cargo freshness is mtime based)
+sh(f"find {W}/repo -name '*.rs' -exec touch {{}} +")
 shutil.copy(f"{src}/demo.rs", f"{W}/repo/tests/seed_demo.rs")
 r0 = sh("cargo test --offline --test seed_demo 2>&1", cwd=f"{W}/repo")
 demo_ok_without = "test result: ok" in r0.stdout and "FAILED" not in r0.stdout
